@@ -14,6 +14,7 @@ REGISTRY = {
     'C12': ['core', 'handles'],
     'C13': ['coro', 'base_core', 'event'],
     'C14': ['coro_mutex'],
+    'C15': ['shared_mutex'],
     'C16': ['event', 'base_core'],
     'C17': ['fault_sched'],
     'C18': ['fiber_locks'],
